@@ -117,7 +117,10 @@ fn main() {
     let stdin = std::io::stdin();
     let stdout = std::io::stdout();
     let mut out = std::io::BufWriter::new(stdout.lock());
-    for line in stdin.lock().lines() {
+    // requests come on stdin, or - when stdin is not available (Miri with isolation) - as command line arguments
+    let args: Vec<String> = std::env::args().skip(1).collect();
+    let lines: Box<dyn Iterator<Item = std::io::Result<String>>> = if args.is_empty() { Box::new(stdin.lock().lines()) } else { Box::new(args.into_iter().map(Ok)) };
+    for line in lines {
         let line = match line { Ok(l) => l, Err(_) => break };
         if line.trim().is_empty() { continue; }
         let req: Value = match serde_json::from_str(&line) {
